@@ -13,14 +13,18 @@ import (
 	core "github.com/envoyproxy/go-control-plane/envoy/config/core/v3"
 	"google.golang.org/protobuf/proto"
 
+	"google.golang.org/protobuf/types/known/wrapperspb"
+	networkingapi "istio.io/api/networking/v1alpha3"
 	"istio.io/istio/pilot/pkg/features"
 	"istio.io/istio/pilot/pkg/model"
 	xdscore "istio.io/istio/pilot/pkg/networking/core"
 	v3 "istio.io/istio/pilot/pkg/xds/v3"
 	"istio.io/istio/pilot/test/xds"
 	"istio.io/istio/pkg/cluster"
-	"istio.io/istio/pkg/network"
+	"istio.io/istio/pkg/config"
+	"istio.io/istio/pkg/config/schema/gvk"
 	"istio.io/istio/pkg/config/schema/kind"
+	"istio.io/istio/pkg/network"
 	"istio.io/istio/pkg/util/sets"
 	"verif/harness/vlib"
 )
@@ -34,10 +38,10 @@ type xEntry struct {
 	cacheable bool
 }
 
-func (e xEntry) Type() string                        { return e.typ }
-func (e xEntry) Key() any                            { return e.key }
+func (e xEntry) Type() string                         { return e.typ }
+func (e xEntry) Key() any                             { return e.key }
 func (e xEntry) DependentConfigs() []model.ConfigHash { return e.deps }
-func (e xEntry) Cacheable() bool                     { return e.cacheable }
+func (e xEntry) Cacheable() bool                      { return e.cacheable }
 
 func genXClear(c *vlib.Collector, id *int, r *vlib.Rand) {
 	n := vlib.Scale(40, 400)
@@ -172,6 +176,15 @@ spec:
   - {name: v1, labels: {version: v1}}
   - {name: v2, labels: {version: v2}}
 ---
+# a second rule for the same host in the same namespace: merged with dr-static into ONE consolidated rule
+apiVersion: networking.istio.io/v1
+kind: DestinationRule
+metadata: {name: dr-static-b, namespace: ns1}
+spec:
+  host: static.ns1.example.com
+  subsets:
+  - {name: v3, labels: {version: v2}}
+---
 apiVersion: networking.istio.io/v1
 kind: DestinationRule
 metadata: {name: dr-ns2-override, namespace: ns2}
@@ -238,8 +251,8 @@ spec:
 
 type proxyAttrs struct {
 	Namespace, Network, Cluster, Region, Node, Version, DNSDomain string
-	Labels                                           map[string]string
-	Router, DNSCapture, NoHBONE                      bool
+	Labels                                                        map[string]string
+	Router, DNSCapture, NoHBONE                                   bool
 }
 
 func (a proxyAttrs) build(s *xds.FakeDiscoveryServer) *model.Proxy {
@@ -364,16 +377,23 @@ func genHKey(t *testing.T, c *vlib.Collector, id *int, r *vlib.Rand) {
 				s = xds.NewFakeDiscoveryServer(t, xds.FakeOptions{ConfigString: hkeyConfig, Gateways: []model.NetworkGateway{
 					{Network: "net1", Addr: "1.1.1.1", Port: 15443}, {Network: "net2", Addr: "2.2.2.2", Port: 15443}}})
 			}
+			capacity := 60000
+			if r.Chance(45) {
+				capacity = 1 + r.Intn(8)
+			}
 			var warm, cold, coldFirst map[string]string
 			cacheKeys := 0
 			var perType [3]int
 			pan, msg := vlib.Recover(func() {
 				p1, p2 := vs[a].build(s), vs[b].build(s)
+				// the typed caches are re-created by ClearAll with the current size: a tiny LRU leaves only
+				// SOME of a service's clusters / routes / endpoints cached (partial hits)
+				features.XDSCacheMaxSize = capacity
 				s.Discovery.Cache.ClearAll()
 				coldFirst = generateAll(s, p1) // fills the shared cache with p1's resources
 				perType = [3]int{len(s.Discovery.Cache.Keys(model.CDSType)), len(s.Discovery.Cache.Keys(model.EDSType)), len(s.Discovery.Cache.Keys(model.RDSType))}
 				cacheKeys = perType[0] + perType[1] + perType[2]
-				warm = generateAll(s, p2)  // p2 served with whatever the keys let it share
+				warm = generateAll(s, p2) // p2 served with whatever the keys let it share
 				s.Discovery.Cache.ClearAll()
 				cold = generateAll(s, vs[b].build(s)) // p2 alone
 			})
@@ -411,6 +431,9 @@ func genHKey(t *testing.T, c *vlib.Collector, id *int, r *vlib.Rand) {
 			c.Hyp("H_key: warm shared cache == no cache (CDS+EDS+RDS resources)", len(ks))
 			term := vlib.App("HKey", vlib.NI(*id), vlib.B(a == b), nlist(wl), nlist(cl))
 			tags := []string{"hkey", "hkey:first=" + a, "hkey:second=" + b}
+			if capacity < 100 {
+				tags = append(tags, "hkey:tiny-lru")
+			}
 			if outputsDiffer > 0 {
 				tags = append(tags, "hkey:proxies-get-different-resources")
 			}
@@ -425,8 +448,167 @@ func genHKey(t *testing.T, c *vlib.Collector, id *int, r *vlib.Rand) {
 			// non-trivial = the two proxies legitimately receive different bytes for some resource
 			// name while the first one's resources sit in the shared cache
 			c.Add(vlib.Case{ID: *id, Term: term, Tags: tags, Trivial: outputsDiffer == 0 || cacheKeys == 0,
-				Sample: map[string]any{"kind": "hkey", "first": a, "second": b, "resources": len(ks), "warm_vs_cold_differing": diff,
+				Sample: map[string]any{"kind": "hkey", "first": a, "second": b, "lru_capacity": capacity, "resources": len(ks), "warm_vs_cold_differing": diff,
 					"first_vs_second_differing": outputsDiffer, "cache_keys_after_first": cacheKeys, "cds_eds_rds_keys_after_first": perType}})
+		}
+	}
+}
+
+// ---------------------------------------------------------------- H_dep: declared dependent configs are complete
+//
+// A config of the world is updated through the real config store; the real DiscoveryServer processes the
+// update (debounce -> Push -> initPushContext -> dropCacheForRequest(ConfigsUpdated)).  What the generators
+// then serve through the cache that survived the targeted Clear must equal what they produce from an empty cache.
+
+type hdepEdit struct {
+	name string
+	gvk  config.GroupVersionKind
+	obj  string
+	ns   string
+	edit func(spec any, flip bool)
+}
+
+func hdepEdits() []hdepEdit {
+	drSubset := func(subset string) func(spec any, flip bool) {
+		return func(spec any, flip bool) {
+			dr := spec.(*networkingapi.DestinationRule)
+			for _, ss := range dr.Subsets {
+				if ss.Name == subset {
+					if flip {
+						ss.Labels = map[string]string{"version": "v1"}
+					} else {
+						ss.Labels = map[string]string{"version": "v2"}
+					}
+				}
+			}
+		}
+	}
+	return []hdepEdit{
+		{"dr-static:subset-v2-labels", gvk.DestinationRule, "dr-static", "ns1", drSubset("v2")},
+		{"dr-static-b:subset-v3-labels", gvk.DestinationRule, "dr-static-b", "ns1", drSubset("v3")},
+		{"dr-static2:outlier", gvk.DestinationRule, "dr-static2", "ns1", func(spec any, flip bool) {
+			dr := spec.(*networkingapi.DestinationRule)
+			n := uint32(3)
+			if flip {
+				n = 7
+			}
+			dr.TrafficPolicy.OutlierDetection.Consecutive_5XxErrors = wrapperspb.UInt32(n)
+		}},
+		{"vs-static:prefix", gvk.VirtualService, "vs-static", "ns1", func(spec any, flip bool) {
+			v := spec.(*networkingapi.VirtualService)
+			p := "/v2"
+			if flip {
+				p = "/second"
+			}
+			v.Http[0].Match[0].Uri = &networkingapi.StringMatch{MatchType: &networkingapi.StringMatch_Prefix{Prefix: p}}
+		}},
+		{"se-static2:endpoint-address", gvk.ServiceEntry, "se-static2", "ns1", func(spec any, flip bool) {
+			se := spec.(*networkingapi.ServiceEntry)
+			if flip {
+				se.Endpoints[0].Address = "10.0.1.99"
+			} else {
+				se.Endpoints[0].Address = "10.0.1.1"
+			}
+		}},
+	}
+}
+
+func genHDep(t *testing.T, c *vlib.Collector, id *int, r *vlib.Rand) {
+	edits := hdepEdits()
+	rounds := vlib.Scale(2, 6)
+	var s *xds.FakeDiscoveryServer
+	interned := map[string]uint64{}
+	in := func(x string) uint64 {
+		if v, ok := interned[x]; ok {
+			return v
+		}
+		interned[x] = uint64(len(interned) + 1)
+		return interned[x]
+	}
+	flip := false
+	for round := 0; round < rounds; round++ {
+		flip = !flip
+		for _, e := range edits {
+			*id++
+			if !c.Wanted(*id) {
+				continue
+			}
+			if s == nil {
+				s = xds.NewFakeDiscoveryServer(t, xds.FakeOptions{ConfigString: hkeyConfig, Gateways: []model.NetworkGateway{
+					{Network: "net1", Addr: "1.1.1.1", Port: 15443}, {Network: "net2", Addr: "2.2.2.2", Port: 15443}}})
+			}
+			var before, warm, cold map[string]string
+			refreshed := false
+			pan, msg := vlib.Recover(func() {
+				features.XDSCacheMaxSize = 60000
+				s.Discovery.Cache.ClearAll()
+				before = generateAll(s, baseAttrs.build(s)) // cache now holds the resources of the current world
+				oldPC := s.PushContext()
+				cur := s.Store().Get(e.gvk, e.obj, e.ns)
+				if cur == nil {
+					panic("harness: config " + e.obj + " not in the store")
+				}
+				upd := cur.DeepCopy()
+				e.edit(upd.Spec, flip)
+				if _, err := s.Store().Update(upd); err != nil {
+					panic(err)
+				}
+				// wait until the server committed the update into a new push context
+				deadline := time.Now().Add(20 * time.Second)
+				for time.Now().Before(deadline) {
+					if s.PushContext() != oldPC && s.Discovery.CommittedUpdates.Load() >= s.Discovery.InboundUpdates.Load() {
+						refreshed = true
+						break
+					}
+					time.Sleep(2 * time.Millisecond)
+				}
+				if !refreshed {
+					return
+				}
+				warm = generateAll(s, baseAttrs.build(s)) // served through whatever survived the targeted Clear
+				s.Discovery.Cache.ClearAll()
+				cold = generateAll(s, baseAttrs.build(s))
+			})
+			if pan {
+				c.Violate(vlib.Violation{ID: *id, Kind: "panic", Detail: msg, Case: e.name})
+				continue
+			}
+			if !refreshed {
+				c.Tag("hdep:push-context-not-refreshed-in-time")
+				continue
+			}
+			keys := map[string]bool{}
+			for k := range warm {
+				keys[k] = true
+			}
+			for k := range cold {
+				keys[k] = true
+			}
+			ks := make([]string, 0, len(keys))
+			for k := range keys {
+				ks = append(ks, k)
+			}
+			sort.Strings(ks)
+			var wl, cl []uint64
+			var diff []string
+			changed := 0
+			for _, k := range ks {
+				wl = append(wl, in(k+"="+warm[k]))
+				cl = append(cl, in(k+"="+cold[k]))
+				if warm[k] != cold[k] {
+					diff = append(diff, k)
+				}
+				if before[k] != cold[k] {
+					changed++
+				}
+			}
+			c.Hyp("H_dep: after a config update processed by the real server, cache-served == regenerated (CDS+EDS+RDS resources)", len(ks))
+			tags := []string{"hdep", "hdep:" + e.name}
+			if changed > 0 {
+				tags = append(tags, "hdep:update-changed-some-resource")
+			}
+			c.Add(vlib.Case{ID: *id, Term: vlib.App("HKey", vlib.NI(*id), vlib.B(true), nlist(wl), nlist(cl)), Tags: tags, Trivial: changed == 0,
+				Sample: map[string]any{"kind": "hdep", "edit": e.name, "flip": flip, "resources": len(ks), "changed_by_update": changed, "served_stale": diff}})
 		}
 	}
 }
@@ -435,4 +617,5 @@ func genExtra(t *testing.T, c *vlib.Collector, id *int, r *vlib.Rand) {
 	genXClear(c, id, r)
 	genFence(c, id, r)
 	genHKey(t, c, id, r)
+	genHDep(t, c, id, r)
 }
